@@ -87,6 +87,7 @@ type RouteS struct {
 	GroupBy        []string // nil = absent
 	Matchers       []string
 	Match          bool // deprecated match: {severity: x}
+	MatchVal       string
 	Mute, Active   []string
 	Continue       bool
 	GroupInterval  string // "" = absent, else a duration text
@@ -678,6 +679,19 @@ func (g *gen) genGlobal() *GlobalS {
 	return gl
 }
 
+// values a printer / parser pair can get wrong: control characters, line separators, escapes written out
+var oddValues = []string{"a\rb", "disk full\r\nplease check", "cr-at-end\r", "nul\x00byte", "vt\vtab\there", "ls\u2028ps\u2029",
+	"nl\nline", `backslash-r \r as two characters`, `quote " and \ backslash`, `\n written out`, "tab\tand\bbell\a", " leading and trailing ", "é ☃ 日本",
+	"", `{braces},commas`, "\x7f\x1b[0m"}
+
+// oddMatcher: name <op> "value" in the matcher syntax of the config file (the value double-quoted, backslash,
+// double quote and new-line escaped as the documentation says; every other character raw)
+func (g *gen) oddMatcher() string {
+	v := vh.Pick(g.r, oddValues)
+	esc := strings.NewReplacer(`\`, `\\`, `"`, `\"`, "\n", `\n`).Replace(v)
+	return vh.Pick(g.r, []string{"message", "banner", "team"}) + vh.Pick(g.r, []string{"=", "!="}) + `"` + esc + `"`
+}
+
 func (g *gen) genRoute(depth int, root bool) *RouteS {
 	rt := &RouteS{}
 	if root || g.r.Chance(1, 2) {
@@ -700,8 +714,14 @@ func (g *gen) genRoute(depth int, root bool) *RouteS {
 	if !root {
 		if g.r.Chance(2, 3) {
 			rt.Matchers = []string{vh.Pick(g.r, []string{`severity="critical"`, `team=~"a|b"`, `job!="x"`, `cluster!~"dev.*"`})}
+			if g.secretFree && g.r.Chance(1, 3) {
+				rt.Matchers = append(rt.Matchers, g.oddMatcher())
+			}
 		} else if g.r.Chance(1, 3) {
 			rt.Match = true
+			if g.secretFree && g.r.Chance(1, 3) {
+				rt.MatchVal = vh.Pick(g.r, oddValues)
+			}
 		}
 		if len(g.tis) > 0 && g.r.Chance(1, 4) {
 			rt.Mute = []string{vh.Pick(g.r, g.tis)}
@@ -833,6 +853,9 @@ func genCfg(seed uint64, salt string, secretFree bool) *CfgS {
 	// inhibit rules
 	for i, n := 0, r.Intn(3); i < n; i++ {
 		rule := OMap{{"source_matchers", []any{`severity="critical"`}}, {"target_matchers", []any{`severity=~"warning|info"`}}}
+		if secretFree && r.Chance(1, 2) {
+			rule = OMap{{"source_matchers", []any{g.oddMatcher()}}, {"target_matchers", []any{`severity=~"warning|info"`, g.oddMatcher()}}}
+		}
 		if r.Bool() {
 			rule = append(rule, KV{"equal", []any{"alertname", "cluster"}})
 		}
@@ -1127,7 +1150,11 @@ func routeYAML(rt *RouteS) any {
 		m = append(m, KV{"matchers", ms})
 	}
 	if rt.Match {
-		m = append(m, KV{"match", OMap{{"severity", "page"}}})
+		v := "page"
+		if rt.MatchVal != "" {
+			v = rt.MatchVal
+		}
+		m = append(m, KV{"match", OMap{{"severity", v}}})
 	}
 	if len(rt.Mute) > 0 {
 		m = append(m, KV{"mute_time_intervals", rt.Mute})
